@@ -588,7 +588,7 @@ def event_req(sc: dict, ev: dict) -> dict:
         for s, v in ev["reb_sectors"].items():
             shares[secs.index(s)] = v
             isreb[secs.index(s)] = True
-    return {"kind": kind, "occ": ev["occ"], "dur": ev["dur"], "tau": int(ev.get("rebuild_tau") or ev.get("recovery_tau") or 1),
+    return {"kind": kind, "occ": ev["occ"], "dur": ev["dur"], "tau": int(ev["rebuild_tau"] if kind == "rebuild" else ev.get("recovery_tau", 1)),
             "impact": qarr(imp), "house": None if house is None else qarr(house),
             "emf": q(ev.get("emf", 1)), "shares": qarr(shares), "isReb": isreb, "factor": q(ev.get("factor", 1.0)),
             "curve": ev.get("curve", "linear") if kind != "rebuild" else "linear"}
